@@ -379,10 +379,8 @@ func checkC18(p *Prog, r *Report) {
 	if f := p.Fn("localInterfaces"); r.Anchor("localInterfaces", f != nil) {
 		var app *ast.CallExpr
 		for _, c := range p.CallsTo(f, false, "builtin.append") {
-			if len(c.Args) == 2 {
-				if id, ok := unparen(c.Args[0]).(*ast.Ident); ok && id.Name == "ipAddrs" {
-					app = c
-				}
+			if len(c.Args) == 2 && typeStr(p.TypeOf(c.Args[0])) == "[]ice.ifaceAddr" {
+				app = c
 			}
 		}
 		if r.Check(app != nil, "localInterfaces: address accepted at one site", p.Pos(f.Body.Pos()), "ipAddrs = append(...)", "accept site not found") {
@@ -392,10 +390,7 @@ func checkC18(p *Prog, r *Report) {
 				name string
 				pred func(ft Fact) bool
 			}
-			inclLoop := func(ft Fact) bool {
-				id, ok := unparen(ft.X).(*ast.Ident)
-				return ok && id.Name == "includeLoopback"
-			}
+			inclLoop := func(ft Fact) bool { return p.isObj(ft.X, p.paramObj(f, 4)) }
 			needs := []need{
 				{"interface is up", func(ft Fact) bool {
 					return ft.Op == "==" && !ft.Val && p.constName(ft.Y) == "0" && strings.Contains(txt(ft), "net.FlagUp")
@@ -405,16 +400,14 @@ func checkC18(p *Prog, r *Report) {
 					if !ok || ft.Op != "truth" {
 						return false
 					}
-					id, ok := unparen(c.Fun).(*ast.Ident)
-					return ok && id.Name == "interfaceFilter" && ft.Val
+					return p.isObj(c.Fun, p.paramObj(f, 1)) && ft.Val
 				}},
 				{"IP filter", func(ft Fact) bool {
 					c, ok := unparen(ft.X).(*ast.CallExpr)
 					if !ok || ft.Op != "truth" {
 						return false
 					}
-					id, ok := unparen(c.Fun).(*ast.Ident)
-					return ok && id.Name == "ipFilter" && ft.Val
+					return p.isObj(c.Fun, p.paramObj(f, 2)) && ft.Val
 				}},
 				{"address parses", func(ft Fact) bool {
 					return ft.Op == "==" && ft.Val && p.isNilExpr(ft.Y) && p.atomIsCall(f, ft.X, "ice.parseAddrFromIface")
@@ -437,8 +430,12 @@ func checkC18(p *Prog, r *Report) {
 		}
 		// empty list requests both families
 		both := 0
-		for _, name := range []string{"ipV4Requested", "ipv6Requested"} {
-			for _, d := range p.DefsOfName(f, name) {
+		v4Obj, v6Obj := p.familyFlags(f)
+		for _, fo := range []types.Object{v4Obj, v6Obj} {
+			if fo == nil {
+				continue
+			}
+			for _, d := range p.DefsOf(f, fo) {
 				if d.Rhs == nil {
 					continue
 				}
@@ -827,7 +824,7 @@ func (p *Prog) filteredBefore(f *Func, call *ast.CallExpr) bool {
 // guardedByOptionalFilter: the accept site is reached only over the negative
 // edge of "<name>Filter != nil && !<name>Filter(x)".
 func (p *Prog) guardedByOptionalFilter(f *Func, site ast.Node, which string) bool {
-	name := map[string]string{"interface": "interfaceFilter", "IP": "ipFilter"}[which]
+	fobj := p.paramObj(f, map[string]int{"interface": 1, "IP": 2}[which])
 	g := p.CFG(f)
 	loc, ok := g.Locate(site)
 	if !ok {
@@ -835,15 +832,12 @@ func (p *Prog) guardedByOptionalFilter(f *Func, site ast.Node, which string) boo
 	}
 	// the call filter(x) must be evaluated on every path on which filter != nil
 	isCall := func(n ast.Node) bool {
-		return p.nodeHasCall(n, func(c *ast.CallExpr) bool {
-			id, ok := unparen(c.Fun).(*ast.Ident)
-			return ok && id.Name == name
-		})
+		return p.nodeHasCall(n, func(c *ast.CallExpr) bool { return p.isObj(c.Fun, fobj) })
 	}
 	_, escapes := g.PathAvoiding(Loc{g.Entry, 0}, isCall, func(b *Block) bool { return b == loc.B }, func(e *Edge) bool {
 		for _, ft := range p.FactsOfCond(e.Cond, e.Val) {
 			if ft.Op == "==" && ft.Val && p.isNilExpr(ft.Y) {
-				if id, ok := unparen(ft.X).(*ast.Ident); ok && id.Name == name {
+				if p.isObj(ft.X, fobj) {
 					return false // filter == nil: nothing to ask
 				}
 			}
@@ -857,7 +851,7 @@ func (p *Prog) guardedByOptionalFilter(f *Func, site ast.Node, which string) boo
 	reach := g.Reach([]*Block{g.Entry}, func(e *Edge) bool {
 		for _, ft := range p.FactsOfCond(e.Cond, e.Val) {
 			if c, ok := unparen(ft.X).(*ast.CallExpr); ok && ft.Op == "truth" && !ft.Val {
-				if id, ok := unparen(c.Fun).(*ast.Ident); ok && id.Name == name {
+				if p.isObj(c.Fun, fobj) {
 					// taking this edge means the filter said no; it must lead away from the site within this iteration
 					return true
 				}
@@ -873,7 +867,7 @@ func (p *Prog) guardedByOptionalFilter(f *Func, site ast.Node, which string) boo
 			no := false
 			for _, ft := range p.FactsOfCond(e.Cond, e.Val) {
 				if c, ok := unparen(ft.X).(*ast.CallExpr); ok && ft.Op == "truth" && !ft.Val {
-					if id, ok := unparen(c.Fun).(*ast.Ident); ok && id.Name == name {
+					if p.isObj(c.Fun, fobj) {
 						no = true
 					}
 				}
@@ -947,6 +941,14 @@ func (p *Prog) familyGate(f *Func, site ast.Node) string {
 		return "accept site not located"
 	}
 	seen6, seen4 := false, false
+	v4Obj, v6Obj := p.familyFlags(f)
+	if v4Obj == nil || v6Obj == nil {
+		return "the requested-family flags were not found"
+	}
+	type gate struct {
+		name string
+		pred func(e ast.Expr) bool
+	}
 	for _, b := range g.Blocks {
 		for _, e := range b.Succs {
 			for _, ft := range p.FactsOfCond(e.Cond, e.Val) {
@@ -954,13 +956,14 @@ func (p *Prog) familyGate(f *Func, site ast.Node) string {
 				if !isC || ft.Op != "truth" || !strings.HasSuffix(p.CalleeName(c), "Addr.Is6") {
 					continue
 				}
-				var need []string
+				var need []gate
 				if ft.Val {
 					seen6 = true
-					need = []string{"ipv6Requested", "isSupportedIPv6Partial"}
+					need = []gate{{"IPv6 being requested", func(x ast.Expr) bool { return p.isObj(x, v6Obj) }},
+						{"the IPv6 support test", func(x ast.Expr) bool { return p.mentionsCall(x, "ice.isSupportedIPv6Partial") }}}
 				} else {
 					seen4 = true
-					need = []string{"ipV4Requested"}
+					need = []gate{{"IPv4 being requested", func(x ast.Expr) bool { return p.isObj(x, v4Obj) }}}
 				}
 				head := p.loopHeadOf(f, edgePos(e))
 				for _, nm := range need {
@@ -969,14 +972,14 @@ func (p *Prog) familyGate(f *Func, site ast.Node) string {
 							return false
 						}
 						for _, ft2 := range p.FactsOfCond(x.Cond, x.Val) {
-							if ft2.Op == "truth" && ft2.Val && strings.Contains(stripVarLines(p.Canon(ft2.X)), nm) {
+							if ft2.Op == "truth" && ft2.Val && nm.pred(ft2.X) {
 								return false
 							}
 						}
 						return true
 					})
 					if r[loc.B] {
-						return fmt.Sprintf("an address with Is6=%v is accepted without %s", ft.Val, nm)
+						return fmt.Sprintf("an address with Is6=%v is accepted without %s", ft.Val, nm.name)
 					}
 				}
 			}
@@ -1046,7 +1049,12 @@ func (p *Prog) checkPortScan(f *Func, r *Report) {
 	// start port inside the range: Intn(max-min+1)+min
 	okStart := false
 	var startObj, curObj types.Object
-	for _, d := range p.DefsOfName(f, "portStart") {
+	startObj0 := p.localByDef(f, func(rhs ast.Expr) bool { return p.mentionsCallSuffix(rhs, ".Intn") })
+	var startDefs []VarDef
+	if startObj0 != nil {
+		startDefs = p.DefsOf(f, startObj0)
+	}
+	for _, d := range startDefs {
 		if d.Rhs == nil {
 			continue
 		}
@@ -1095,17 +1103,9 @@ func (p *Prog) checkPortScan(f *Func, r *Report) {
 			}
 		}
 	}
-	walkBody(f, func(n ast.Node) bool {
-		if id, ok := n.(*ast.Ident); ok {
-			switch id.Name {
-			case "portStart":
-				startObj = p.ObjOf(id)
-			case "portCurrent":
-				curObj = p.ObjOf(id)
-			}
-		}
-		return true
-	})
+	startObj = startObj0
+	// the scan variable: initialised from the start port
+	curObj = p.localByDef(f, func(rhs ast.Expr) bool { return p.isObj(rhs, startObj0) })
 	r.Check(okStart, "port scan: random start inside [min, max]", pos, "Intn(max-min+1)+min", "the first port tried can lie outside the configured range")
 	// the loop
 	var loop *ast.ForStmt
@@ -1134,7 +1134,15 @@ func (p *Prog) checkPortScan(f *Func, r *Report) {
 				got[kv.Key.(*ast.Ident).Name] = stripVarLines(p.Canon(kv.Value))
 			}
 		}
-		okListen = got["IP"] == "$lAddr.IP" && got["Zone"] == "$lAddr.Zone" && got["Port"] == "$portCurrent"
+		ladName := ""
+		if lad != nil {
+			ladName = "$" + lad.Name()
+		}
+		curName := ""
+		if curObj != nil {
+			curName = "$" + curObj.Name()
+		}
+		okListen = got["IP"] == ladName+".IP" && got["Zone"] == ladName+".Zone" && got["Port"] == curName && ladName != "" && curName != ""
 	}
 	r.Check(okListen, "port scan: listens on the caller's IP and zone at the current port", p.Pos(loop.Pos()), "UDPAddr{IP: lAddr.IP, Zone: lAddr.Zone, Port: portCurrent}", "the scan does not listen on the requested address / current port")
 	// step: increment by one; wrap to min when above max; stop when back at the start
@@ -1259,4 +1267,48 @@ func edgePos(e *Edge) token.Pos {
 		return e.Cond.X.Pos()
 	}
 	return token.NoPos
+}
+
+// familyFlags: the two locals of localInterfaces that record which address
+// families were requested, identified by the assignment "= true" under
+// NetworkType.IsIPv4() / IsIPv6().
+func (p *Prog) familyFlags(f *Func) (v4, v6 types.Object) {
+	walkBody(f, func(n ast.Node) bool {
+		as, ok := n.(*ast.AssignStmt)
+		if !ok || len(as.Lhs) != 1 || len(as.Rhs) != 1 {
+			return true
+		}
+		if v, _ := p.ConstVal(as.Rhs[0]); v != "true" {
+			return true
+		}
+		id, ok := unparen(as.Lhs[0]).(*ast.Ident)
+		if !ok {
+			return true
+		}
+		for _, ft := range p.DominatingFactList(f, as) {
+			c, isC := unparen(ft.X).(*ast.CallExpr)
+			if !isC || ft.Op != "truth" || !ft.Val {
+				continue
+			}
+			switch p.CalleeName(c) {
+			case "ice.NetworkType.IsIPv4":
+				v4 = p.ObjOf(id)
+			case "ice.NetworkType.IsIPv6":
+				v6 = p.ObjOf(id)
+			}
+		}
+		return true
+	})
+	return
+}
+
+func (p *Prog) mentionsCallSuffix(n ast.Node, suffix string) bool {
+	found := false
+	ast.Inspect(n, func(x ast.Node) bool {
+		if c, ok := x.(*ast.CallExpr); ok && strings.HasSuffix(p.CalleeName(c), suffix) {
+			found = true
+		}
+		return true
+	})
+	return found
 }
